@@ -6,7 +6,7 @@
 const char *op_kind_name[] = {"create", "open", "close", "abort", "redef", "enddef", "_enddef", "begin_indep", "end_indep", "sync", "sync_numrecs", "flush",
                               "syncpoint", "barrier", "checkpoint", "def_dim", "def_var", "def_var_fill", "set_fill", "fill_var_rec", "put_att", "del_att",
                               "rename_att", "copy_att", "rename_dim", "rename_var", "put", "get", "iput", "iget", "bput", "wait", "cancel", "attach", "detach",
-                              "inq", "badid", "delete", "set_default_format"};
+                              "inq", "badid", "delete", "set_default_format", "probe"};
 
 int nc_type_size(int t) {
     switch (t) { case NC_BYTE: case NC_CHAR: case NC_UBYTE: return 1; case NC_SHORT: case NC_USHORT: return 2; case NC_INT: case NC_FLOAT: case NC_UINT: return 4;
@@ -272,7 +272,7 @@ bool model_step(Model &m, Op &op) {
     return ok;
 }
 static bool model_step_inner(Model &m, Op &op) {
-    op.skip = false; op.exp_rc = NC_NOERR; op.rc_any = false; op.exp_rc_rank.clear(); op.note.clear();
+    op.skip = false; op.exp_rc = NC_NOERR; op.rc_any = false; op.exp_rc_rank.clear(); op.exp_rc_alt.clear(); op.note.clear();
     int opidx = m.opidx++;
     op.snap.reset(); op.msnap.reset(); op.exp_nreqs.clear(); op.exp_usage.clear();
     if (op.kind == OP_BARRIER) { m.pending_reads.clear(); return true; }
@@ -281,6 +281,8 @@ static bool model_step_inner(Model &m, Op &op) {
         m.pending_reads.clear();
         if (op.a[0] == 1) { if (op.file < 0 || op.file >= (int)m.files.size() || !m.files[op.file].open || !m.files[op.file].in_redef) { op.skip = true; return false; } m.snap_state[op.file] = 1; op.name = m.files[op.file].path; }
         else if (op.a[0] == 2) { if (m.snap_state[op.file] != 2) { op.skip = true; return false; } m.snap_state[op.file] = 0; }
+        else if (op.a[0] == 5 || op.a[0] == 6) { if (op.file < 0 || op.file >= (int)m.files.size() || !m.files[op.file].open) { op.skip = true; return false; } op.name = m.files[op.file].path; }
+        else if (op.a[0] == 3 || op.a[0] == 4) { if (op.file < 0 || op.file >= (int)m.files.size() || !m.files[op.file].open) { op.skip = true; return false; } op.name = m.files[op.file].path; }
         op.msnap = std::make_shared<Model>(m); op.msnap->pending_reads.clear(); return true;
     }
     if (op.file < 0 || op.file >= (int)m.files.size()) { op.skip = true; return false; }
@@ -321,17 +323,61 @@ static bool model_step_inner(Model &m, Op &op) {
         sync_numrecs(f); mark_synced(f);
         MFile s = f; s.open = false; s.ranks.clear(); s.saved.reset(); m.disk[s.path] = s; f = MFile(); return true;
     }
+    case OP_PROBE: {
+        // one call from an API family, issued identically by every rank; expected outcome from the mode automaton (C14)
+        if (!f.open) return skip();
+        bool def = f.mode == FM_DEFINE, coll = f.mode == FM_COLL, indep = f.mode == FM_INDEP, ro = f.readonly;
+        op.exp_rc_alt.clear(); int rc = NC_NOERR;
+        auto both = [&](int first, int second) { rc = first; op.exp_rc_alt.push_back(second); };
+        switch (op.a[0]) {
+        case 0: case 17: rc = op.a[0] == 17 ? NC_ENOTVAR : NC_NOERR; break;                       // inq / inq_varid(unknown)
+        case 1: case 2: case 15:                                                                  // def_dim / put_att(new) / set_fill: define mode only, write permission
+            if (ro && !def) both(NC_EPERM, NC_ENOTINDEFINE); else if (!def) rc = NC_ENOTINDEFINE;
+            if (op.a[0] == 2 && ro) { rc = NC_EPERM; op.exp_rc_alt.clear(); }                      // documented precedence for put att: NC_EPERM first
+            if (rc == NC_NOERR && op.a[0] == 1) { MDim d; d.name = op.name; d.len = 2; for (auto &x : f.dims) if (x.name == d.name) return skip(); f.dims.push_back(d); }
+            if (rc == NC_NOERR && op.a[0] == 2) { for (auto &x : f.gatts) if (x.name == op.name) return skip(); MAtt a; a.name = op.name; a.type = NC_INT; a.v = {7}; f.gatts.push_back(a); }
+            if (rc == NC_NOERR && op.a[0] == 15) { f.fill = op.a[1] != 0; for (auto &v : f.vars) { v.no_fill = !f.fill; v.fill_known = true; } }
+            break;
+        case 4: case 6:                                                                           // collective get / put of one element of variable 0
+            if (f.vars.empty()) return skip();
+            if (op.a[0] == 6 && ro) rc = NC_EPERM; else if (def) rc = NC_EINDEFINE; else if (indep) rc = NC_EINDEP;     // documented precedence: EPERM, EINDEFINE, ...
+            break;
+        case 5:                                                                                   // independent get
+            if (f.vars.empty()) return skip();
+            if (def) rc = NC_EINDEFINE; else if (coll) rc = NC_ENOTINDEP;
+            break;
+        case 7: if (f.vars.empty()) return skip(); if (ro) rc = NC_EPERM; break;                   // iput (allowed in any mode) followed by cancel
+        case 8: if (def) rc = NC_EINDEFINE; else if (indep) rc = NC_EINDEP; break;                 // wait_all
+        case 9: if (def) rc = NC_EINDEFINE; else if (coll) rc = NC_ENOTINDEP; break;               // wait
+        case 10: rc = NC_NOERR; break;                                                            // cancel(NC_REQ_ALL)
+        case 11: case 16: if (def) rc = NC_EINDEFINE; else if (op.a[0] == 16 && ro) op.exp_rc_alt.push_back(NC_EPERM); break;   // sync / sync_numrecs (the latter writes the header: read-only may be refused)
+        case 14: rc = NC_NOERR; break;                                                            // buffer attach + detach
+        default: return skip();
+        }
+        if ((op.a[0] == 4 || op.a[0] == 5 || op.a[0] == 6) && rc == NC_NOERR) {
+            // the transfer itself: element 0 of variable 0 (records: record 0 must exist for reads)
+            MVar &v = f.vars[0];
+            if (v.type == NC_CHAR) return skip();
+            if (v.isrec && f.numrecs == 0 && op.a[0] != 6) return skip();
+            if (v.recelems == 0) return skip();
+            if (op.a[0] == 6) { ensure_records(v, 1); Cell &c = v.cells[0]; c.st = CS_UNKNOWN; c.wmask = 0xff; if (v.isrec && f.numrecs < 1) { f.numrecs = 1; sync_numrecs(f); } }
+        }
+        if ((op.a[0] == 8 || op.a[0] == 9) && rc == NC_NOERR) { for (auto &r : f.ranks) for (auto &q : r.reqs) if (q.live) return skip(); }
+        if (op.a[0] == 10) for (auto &r : f.ranks) for (auto &q : r.reqs) if (q.live) return skip();
+        op.exp_rc = rc; return true;
+    }
     case OP_REDEF: {
+        if (op.a[4] == 1 && f.open && (f.mode == FM_DEFINE || f.readonly)) { op.exp_rc = f.readonly ? NC_EPERM : NC_EINDEFINE; if (f.readonly && f.mode == FM_DEFINE) op.exp_rc_alt = {NC_EINDEFINE}; return true; }
         if (!f.open || f.mode == FM_DEFINE || f.readonly) return skip();
         sync_numrecs(f);
         f.saved = std::make_shared<MFile>(f); f.saved->saved.reset(); f.saved->mode = FM_COLL;
         f.mode = FM_DEFINE; f.in_redef = true; return true;
     }
-    case OP_ENDDEF: case OP_ENDDEF2: if (!f.open || f.mode != FM_DEFINE) return skip(); do_enddef(f); m.snap_state[op.file] = 0; return true;
+    case OP_ENDDEF: case OP_ENDDEF2: if (op.a[4] == 1 && f.open && f.mode != FM_DEFINE && op.kind == OP_ENDDEF) { op.exp_rc = NC_ENOTINDEFINE; return true; } if (!f.open || f.mode != FM_DEFINE) return skip(); do_enddef(f); m.snap_state[op.file] = 0; return true;
     // collective and independent accesses go through different MPI file handles (and, with aggregation, through other ranks): data written
     // before a mode switch is only ordered with accesses after it by the documented sync-barrier-sync, even on the writing rank itself
-    case OP_BEGIN_INDEP: if (!f.open || f.mode != FM_COLL) return skip(); f.mode = FM_INDEP; for (auto &v : f.vars) for (auto &c : v.cells) if (c.wmask) c.wmask = 0xff; return true;
-    case OP_END_INDEP: if (!f.open || f.mode != FM_INDEP) return skip(); f.mode = FM_COLL; sync_numrecs(f); for (auto &v : f.vars) for (auto &c : v.cells) if (c.wmask) c.wmask = 0xff; return true;
+    case OP_BEGIN_INDEP: if (op.a[4] == 1 && f.open && f.mode == FM_DEFINE) { op.exp_rc = NC_EINDEFINE; return true; } if (op.a[4] == 1 && f.open && f.mode == FM_INDEP) { op.exp_rc = NC_NOERR; return true; } if (!f.open || f.mode != FM_COLL) return skip(); f.mode = FM_INDEP; for (auto &v : f.vars) for (auto &c : v.cells) if (c.wmask) c.wmask = 0xff; return true;
+    case OP_END_INDEP: if (op.a[4] == 1 && f.open && f.mode == FM_DEFINE) { op.exp_rc = NC_EINDEFINE; return true; } if (op.a[4] == 1 && f.open && f.mode == FM_COLL) { op.exp_rc = NC_NOERR; return true; } if (!f.open || f.mode != FM_INDEP) return skip(); f.mode = FM_COLL; sync_numrecs(f); for (auto &v : f.vars) for (auto &c : v.cells) if (c.wmask) c.wmask = 0xff; return true;
     case OP_SYNC: if (!f.open || f.mode == FM_DEFINE) return skip(); sync_numrecs(f); return true;
     case OP_SYNC_NUMRECS: if (!f.open || f.mode == FM_DEFINE) return skip(); sync_numrecs(f); return true;
     case OP_FLUSH: if (!f.open || f.mode == FM_DEFINE) return skip(); return true;
